@@ -186,10 +186,7 @@ func runC04(c *fw.Ctx) {
 			}
 			count := total
 			if n == 4 {
-				count = c.Pick(2000, 60000)
-			}
-			if n == 3 && c.Quick() {
-				count = 4000
+				count = c.Pick(20000, 400000)
 			}
 			for k := 0; k < count; k++ {
 				code := k
@@ -258,10 +255,7 @@ func runC04(c *fw.Ctx) {
 			}
 			count := total
 			if n == 3 {
-				count = c.Pick(250, total)
-			}
-			if n == 2 && c.Quick() {
-				count = 120
+				count = c.Pick(1500, total)
 			}
 			for k := 0; k < count; k++ {
 				code := k
@@ -321,7 +315,7 @@ func runC04(c *fw.Ctx) {
 	}
 	// (e) seeded random compositions of the above (nesting malformed forms inside each other)
 	r := c.Rand("compose")
-	for i := 0; i < c.PerShard(c.Pick(20000, 600000)); i++ {
+	for i := 0; i < c.PerShard(c.Pick(200000, 6000000)); i++ {
 		depth := 1 + r.Intn(3)
 		var build func(d int) types.MalType
 		var sb strings.Builder
